@@ -301,6 +301,14 @@ OLDX_BODIES = {
     "logsoftmax3": (9, 12, lambda h, TP: [h.make_node("Unsqueeze", ["a0"], ["u"], axes=[0]),
                                           h.make_node("LogSoftmax", ["u"], ["s"], axis=1),
                                           h.make_node("Squeeze", ["s"], ["q"], axes=[0])]),
+    # the same without any node whose signature changed: kept unconverted these pass every check and only
+    # compute other values
+    "softmax3_reshape": (9, 12, lambda h, TP: [_c64(h, TP, "s3", [1, 2, 3]), h.make_node("Reshape", ["a0", "s3"], ["u"]),
+                                               h.make_node("Softmax", ["u"], ["s"], axis=1),
+                                               _c64(h, TP, "s2", [2, 3]), h.make_node("Reshape", ["s", "s2"], ["q"])]),
+    "logsoftmax3_reshape": (9, 12, lambda h, TP: [_c64(h, TP, "s3", [1, 2, 3]), h.make_node("Reshape", ["a0", "s3"], ["u"]),
+                                                  h.make_node("LogSoftmax", ["u"], ["s"], axis=1),
+                                                  _c64(h, TP, "s2", [2, 3]), h.make_node("Reshape", ["s", "s2"], ["q"])]),
     "rmean_attr": (9, 17, lambda h, TP: [h.make_node("ReduceMean", ["a0"], ["r"], axes=[1], keepdims=1),
                                          h.make_node("Sub", ["a0", "r"], ["q"])]),
     "rmax_attr": (9, 17, lambda h, TP: [h.make_node("ReduceMax", ["a0"], ["r"], axes=[0], keepdims=1),
